@@ -243,3 +243,61 @@ def tv_unit(eng, u, cpath):
     if int(m.group(3)) and not first:
         first = "assertion inside generated code fired: " + r.stdout[:300]
     return {"programs": len(roots), "inputs": int(m.group(1)), "mismatches": nm, "first": first}
+
+
+def inv_corpus(eng):
+    """native: every URL the real parser produces from the corpora satisfies INV (harness/inv_corpus.c)"""
+    from engine import Unit
+    u = Unit("default", ["vk_parse_state"])
+    obj = eng.native_obj(u)
+    cpath = os.path.join(eng.work, "corpus_full.bin")
+    with open(cpath, "wb") as f:
+        for b in corpus_full():
+            f.write(struct.pack("<I", len(b)))
+            f.write(b)
+    exe = os.path.join(eng.work, "inv_corpus.exe")
+    o = os.path.join(eng.work, "inv_corpus.o")
+    r = subprocess.run([GCC, "-O1", "-w", "-c", os.path.join(VERIF, "harness", "inv_corpus.c"), "-o", o,
+                        "-I", os.path.join(VERIF, "harness"), "-I", os.path.join(VERIF, "ref")], capture_output=True, text=True)
+    if r.returncode != 0:
+        return {"error": "gcc: " + r.stderr[-400:]}
+    r = subprocess.run([CLANGXX, o, obj, "-o", exe, "-lpthread"], capture_output=True, text=True)
+    if r.returncode != 0:
+        return {"error": "link: " + r.stderr[-400:]}
+    r = subprocess.run([exe, cpath], capture_output=True, text=True, errors="replace", timeout=600)
+    m = re.search(r"INVCORPUS parsed=(\d+) bad=(\d+)", r.stdout)
+    if not m:
+        return {"error": f"rc={r.returncode} " + (r.stdout + r.stderr)[-300:]}
+    fails = re.findall(r"INV-FAIL.*", r.stdout)
+    return {"parsed": int(m.group(1)), "bad": int(m.group(2)), "fails": [x[:300] for x in fails[:8]]}
+
+
+def corpus_full():
+    """whole input strings of the URL corpora (<= 200 bytes)"""
+    out = set()
+    for f in ["tests/wpt/urltestdata.json", "tests/wpt/setters_tests.json"]:
+        p = os.path.join(REPO, f)
+        if not os.path.exists(p):
+            continue
+        try:
+            data = json.load(open(p, encoding="utf-8"))
+        except Exception:  # noqa
+            continue
+
+        def walk(x):
+            if isinstance(x, str):
+                yield x
+            elif isinstance(x, dict):
+                for v in x.values():
+                    yield from walk(v)
+            elif isinstance(x, list):
+                for v in x:
+                    yield from walk(v)
+        for s in walk(data):
+            try:
+                b = s.encode("utf-8", "surrogatepass")
+            except Exception:  # noqa
+                continue
+            if len(b) <= 200:
+                out.add(b)
+    return sorted(out)
